@@ -117,7 +117,7 @@ def explore(case):
     ws = [np.zeros(3), np.array([0.3, -0.2, 0.5]), alpha.generic_vec(seed + 1, 3)]
     hover = math.sqrt(d["m"] * d["g"] / 4 / d["CT"])
     oms = [np.zeros(4), np.full(4, hover), np.array([600.0, 700.0, 800.0, 900.0])]
-    zs = [2.0, 0.01]
+    zs = [2.0, 0.01, 0.002, 1e-4]  # above ground: also within millimetres of it
     aero = any(d[k] != 0 for k in ("CD0", "Cl_p", "Cm_q", "Cn_r"))
     if tier != "thorough" and pname.startswith("spin_"):
         quats, vbs, ws = quats[::4], vbs[:2], ws[:2]
